@@ -33,6 +33,7 @@ inductive Fail where
   | timeout            -- no answer within the driver's timeout
   | ctx                -- the caller's context ended while the request was outstanding
   | exhausted          -- (harness) the script has no answer left
+  | unknownRetry       -- query_executor.go ErrUnknownRetryType (Model/PagingRetry.lean)
   deriving DecidableEq, Repr
 
 /-- one scripted answer of the server -/
